@@ -17,6 +17,19 @@ def run(ctx):
     ok_k, out_k, th_k = core.compile_variant(ctx, "K1_dak_coefficient.v", "K1_dak_coefficient.v", src_dir=core.FINDINGS)
     if ok_k:
         core.register(ctx, "K1_dak_coefficient.v", th_k, True, out_k)
+    # density / viscosity increasing in pressure: proved on top of C06's root theorems, in the variant
+    # of the equation of state that checks against the regenerated gas.py (coded now; published if
+    # gas.py is ever corrected - see known finding K1)
+    from checks.C06 import SUBST_PUB
+    ok_r, _, _ = core.compile_variant(ctx, "C06_root.v", "C06_root.v")
+    if ok_r:
+        ok_m, out_m, th_m = core.compile_variant(ctx, "C07_monotone.v", "C07_monotone.v")
+        core.register(ctx, "C07_monotone.v", th_m, ok_m, out_m)
+    else:
+        ok_rp, _, _ = core.compile_variant(ctx, "C06_root.v", "C06_root_pub.v", SUBST_PUB)
+        sub = SUBST_PUB + [("C06_root", "C06_root_pub")]
+        ok_m, out_m, th_m = core.compile_variant(ctx, "C07_monotone.v", "C07_monotone_pub.v", sub)
+        core.register(ctx, "C07_monotone_pub.v" if ok_rp else "C07_monotone.v", th_m, ok_rp and ok_m, out_m)
     rng = dom.rng_for(ctx, 7)
     n = 250 if ctx.quick else 5000
     ev = 0
